@@ -3,7 +3,7 @@
 from harness import common, gens, pattern
 from harness.props import C02
 
-EXTRA_OBLIGATION_FILES = ("Props/C05_kits.v", "Props/C05_src.v", "Props/C04_structure_src.v", "Props/C04_texts.v",)
+EXTRA_OBLIGATION_FILES = ("Props/C05_kits.v", "Props/C05_src.v", "Props/C04_structure_src.v", "Props/C04_transcribe_src.v", "Props/C04_texts.v",)
 LEVEL_NOTE = ("Theorem for every pair (part pattern, generic pattern) of the common shape with the part's overhang atoms "
               "refining the generic ones, and every record with at most one occurrence of the generic structure: part "
               "valid iff generic valid and the overhangs it reports match the signature; by reflection over the kit table "
@@ -37,6 +37,17 @@ From Coq Require Import String.
 def impl_structure(case):
     from harness import implutil
     return implutil.get_class(case["cls"]).structure()
+
+
+def impl_transcribe(text):
+    from moclo.regex import DNARegex
+    out = {"tr": DNARegex._transcribe(text)}
+    try:
+        out["compiled"] = DNARegex(text).regex.pattern
+    except Exception as e:  # noqa  (an unbalanced random text)
+        out["compiled"] = None
+        out["exc"] = type(e).__name__
+    return out
 
 
 def impl_structure_pair(pair):
@@ -169,6 +180,27 @@ def run(ctx):
         ctx.disagreements.append({"case": scases[k]["cls"], "impl": texts[k],
                                   "observable": "AbstractPart.structure() text vs the text computed by structure() as "
                                                 "regenerated from the source", "model_fn": "Gen/Src.v AbstractPart_structure"})
+    # DNARegex._transcribe as regenerated from regex.py against the text the implementation compiles: every structure
+    # text above, every kit structure, and random texts over pattern letters, lower case and regex punctuation
+    ttexts = sorted(set(t for t in texts if isinstance(t, str)) |
+                    set(c["structure"] for c in ctx.tables["classes"] if c.get("structure")))
+    for _ in range(150 if ctx.quick else 1500):
+        ttexts.append("".join(rng.choice("ACGTNRYSWKMBDHVNNNacgtnrykx()()**??^_[]|.+-01 ") for _ in range(rng.randrange(0, 24))))
+    ttexts = [t for t in ttexts if '"' not in t and all(32 <= ord(ch) <= 126 for ch in t)]
+    tobs = common.run_impl(ctx, "C05", "impl_transcribe", ttexts)
+    tterms = []
+    for t, o in zip(ttexts, tobs):
+        ctx.evaluations += 1
+        ctx.count("transcribed-texts")
+        if o["compiled"] is not None and o["compiled"] != o["tr"]:
+            ctx.violations.append({"signature": "C05:compiled-text-differs", "input": {"pattern": t},
+                                   "what": "DNARegex(%r) compiled %r, _transcribe gives %r" % (t, o["compiled"], o["tr"])})
+        tterms.append('("%s"%%string, "%s"%%string)' % (t, o["tr"].replace('"', '""')))
+    bad = common.coq_eval_cases(ctx, "transcribesrc", SRC_IMPORTS, tterms, "check_transcribe_src", per_file=400)
+    for b in bad:
+        ctx.disagreements.append({"case": {"pattern": ttexts[b]}, "impl": tobs[b]["tr"],
+                                  "observable": "DNARegex._transcribe text vs the text computed by _transcribe as "
+                                                "regenerated from the source", "model_fn": "Gen/Src.v DNARegex_transcribe"})
     # (b) verdicts
     subjects = []
     kitparts = [c for c in ctx.tables["classes"] if not c["abstract"] and c["signature"] is not None
